@@ -817,6 +817,13 @@ def _r3(ctx):
     # (the decision may have been moved into a helper of the class: put back first; _prepare_ode_content stays the call the rule is about)
     fn = pkg.expanded("TemplateLoader", "render", keep=("_prepare_ode_content", "_prepare_renorm_content", "_render", "_prepare_contents"))
     ctx.saw(FILE, "TemplateLoader.render")
+    # (`ode = <local of the helper>` left behind by putting a helper back names the same value again: one call, one local)
+    try:
+        import copy
+        from ..normalize import coalesce_copies
+        fn = coalesce_copies(copy.deepcopy(fn))
+    except (RecursionError, ImportError):
+        pass
     fl = Flow(fn, FILE)
     calls = [f for f in fl.facts if f.kind == "call" and f.target == "reindex"]
     prep = [(v, loops, g, line, seq) for lst in fl.assigns.values() for v, loops, g, line, seq in lst if v[0] == "meth" and v[2] == "_prepare_ode_content"]
